@@ -46,11 +46,17 @@ AfterCall(j, h, kind) ==
 NewProcess(j, cache) == [j EXCEPT !.mem = {}, !.cacheOn = cache, !.optgen = {}, !.bmem = {}]
 Wipe(j) == [j EXCEPT !.disk = {}, !.bdisk = {}]
 
+(* Dispatch by arguments: with Numba on, a call still takes the pure-Python path when its arguments need it -
+   std / var with ddof # 0 (Numba's np.std has no ddof), and median keeping the missing values of a column that holds
+   some (Numba's np.median does not propagate NaN; FX-C08-median-nan).  Such a call compiles, loads and damages nothing. *)
+PyCapable == {"std", "var", "median"}
+IsPy(e) == "py" \in DOMAIN e /\ e.py
 RECURSIVE Replay(_, _, _)
 Replay(j, hist, i) ==      \* the JIT state after the first i events of hist
   IF i = 0 THEN j
   ELSE LET p == Replay(j, hist, i - 1)  e == hist[i] IN
-       IF e.t = "call" THEN (IF "h2" \in DOMAIN e /\ e.h2 # "" THEN AfterCall(AfterCall(p, e.h, e.kind), e.h2, e.kind)
+       IF e.t = "call" /\ IsPy(e) THEN p
+       ELSE IF e.t = "call" THEN (IF "h2" \in DOMAIN e /\ e.h2 # "" THEN AfterCall(AfterCall(p, e.h, e.kind), e.h2, e.kind)
                              ELSE AfterCall(p, e.h, e.kind))
        ELSE IF e.t = "proc" THEN NewProcess(p, e.cache) ELSE Wipe(p)
 
